@@ -2542,3 +2542,253 @@ func (r *Report) ArgNoNativeAccumulation(key, fnKey, callee string, idx int) {
 	}
 	r.OK(k, d, w.FnPos(fn), "no native accumulator in the derivation")
 }
+
+// MustPass: once `trigger` has executed, every non-failure return is preceded by `required` (no path from the trigger
+// to a success return avoids it).
+func (r *Report) MustPass(key, fnKey string, trigger, required Effect) {
+	w := r.W
+	fn := w.Fn(fnKey)
+	d := fmt.Sprintf("in %s every success return after [%s] passes through [%s]", fnKey, trigger, required)
+	k := key + "|" + fnKey + "|" + trigger.String() + "=>" + required.String()
+	if fn == nil {
+		r.Unres(k, d, "function not found")
+		return
+	}
+	ts, rs := w.Sites(fn, trigger), w.Sites(fn, required)
+	if len(ts) == 0 || len(rs) == 0 {
+		r.Unres(k, d, fmt.Sprintf("sites: %d trigger, %d required", len(ts), len(rs)))
+		return
+	}
+	reqBlocks := map[*ssa.BasicBlock]bool{}
+	for _, s := range rs {
+		reqBlocks[s.Block] = true
+	}
+	for _, t := range ts {
+		// blocks reachable from the trigger without passing a required block
+		start := map[*ssa.BasicBlock]bool{}
+		if reqBlocks[t.Block] {
+			// required in the same block after the trigger? then everything after passes it
+			after := false
+			for _, s := range rs {
+				if s.Block == t.Block && instrIndex(s.Instr) > instrIndex(t.Instr) {
+					after = true
+				}
+			}
+			if after {
+				continue
+			}
+		}
+		for _, s := range t.Block.Succs {
+			for b := range reachFrom(s, reqBlocks) {
+				start[b] = true
+			}
+		}
+		if rt := returnOf(t.Block); rt != nil {
+			start[t.Block] = true
+		}
+		for b := range start {
+			rt := returnOf(b)
+			if rt == nil || b == fn.Recover || returnIsFailure(fn, rt) {
+				continue
+			}
+			// a return whose returned error IS the required call (return f(...)) passes it
+			idx := errResultIndex(fn)
+			if idx >= 0 {
+				if c, ok := seeThrough(retValue(rt, idx)).(*ssa.Call); ok {
+					isReq := false
+					for _, s := range rs {
+						if s.Instr == ssa.Instruction(c) {
+							isReq = true
+						}
+					}
+					if isReq {
+						continue
+					}
+				}
+			}
+			r.Bad(k, d, w.posOr(rt.Pos(), fn), "a success return is reachable after the trigger without passing the required call")
+			return
+		}
+	}
+	r.OK(k, d, w.FnPos(fn), fmt.Sprintf("%d trigger / %d required sites", len(ts), len(rs)))
+}
+
+// OnlyCallsOf: within fn, calls whose callee name contains `family` are all in `allowed` (exact last-name match).
+func (r *Report) OnlyCallsOf(key, fnKey, family string, allowed []string) {
+	w := r.W
+	fn := w.Fn(fnKey)
+	d := fmt.Sprintf("in %s every %s operation is one of %v", fnKey, family, allowed)
+	k := key + "|" + fnKey + "|" + family
+	if fn == nil {
+		r.Unres(k, d, "function not found")
+		return
+	}
+	n := 0
+	for _, b := range fn.Blocks {
+		for _, in := range b.Instrs {
+			ci, ok := in.(ssa.CallInstruction)
+			if !ok {
+				continue
+			}
+			name := CalleeName(ci.Common())
+			if !strings.Contains(name, family) {
+				continue
+			}
+			n++
+			ok2 := false
+			for _, a := range allowed {
+				if lastName(name) == a {
+					ok2 = true
+				}
+			}
+			if !ok2 {
+				r.Bad(k, d, w.posOr(in.Pos(), fn), name+" is not in the allowed set")
+				return
+			}
+		}
+	}
+	if n == 0 {
+		r.Unres(k, d, "no call of that family")
+		return
+	}
+	r.OK(k, d, w.FnPos(fn), fmt.Sprintf("%d calls", n))
+}
+
+// SameRoot: the argument `ref` and the argument #0 of every call of `callee` in fn are the same value (the Coins that
+// were moved are the Coins that are split).
+func (r *Report) SameRoot(key, fnKey string, ref ArgRef, callee string) {
+	w := r.W
+	fn := w.Fn(fnKey)
+	d := fmt.Sprintf("in %s the value passed to %s#%d is the one re-expressed by %s", fnKey, ref.Callee, ref.Idx, callee)
+	k := key + "|" + fnKey
+	if fn == nil {
+		r.Unres(k, d, "function not found")
+		return
+	}
+	rc := Calls(fn, ref.Callee)
+	if len(rc) != 1 {
+		r.Unres(k, d, fmt.Sprintf("%d calls of %s", len(rc), ref.Callee))
+		return
+	}
+	moved := canonValue(argValue(rc[0].Common(), ref.Idx))
+	n := 0
+	for _, c := range Calls(fn, callee) {
+		a := argValue(c.Common(), 0)
+		if a == nil {
+			continue
+		}
+		if sameCanon(canonValue(a), moved) {
+			n++
+		}
+	}
+	if n >= 1 {
+		r.OK(k, d, w.Pos(rc[0].Pos()), fmt.Sprintf("%d conversion(s) of the transferred value", n))
+	} else {
+		r.Bad(k, d, w.posOr(rc[0].Pos(), fn), "the split does not start from the transferred Coins value")
+	}
+}
+
+// Telescoping (C14.R2): the loop-carried `remaining` is initialised from the post-tax reward, decreased by exactly the
+// value allocated in the loop, and the final allocation to the proposer receives it.
+func (r *Report) Telescoping(key, fnKey string) {
+	w := r.W
+	fn := w.Fn(fnKey)
+	d := "remaining := reward - tax; remaining -= each allocation; proposer gets remaining"
+	k := key + "|" + fnKey
+	if fn == nil {
+		r.Unres(k, d, "function not found")
+		return
+	}
+	allocs := Calls(fn, "DistrKeeper.AllocateTokensToValidator")
+	if len(allocs) != 2 {
+		r.Unres(k, d, fmt.Sprintf("%d AllocateTokensToValidator calls, expected 2 (loop + proposer)", len(allocs)))
+		return
+	}
+	var final ssa.CallInstruction
+	for _, a := range allocs {
+		if Render(argValue(a.Common(), 1)).Has("field:Header.ProposerAddress") {
+			final = a
+		}
+	}
+	if final == nil {
+		r.Bad(k, d, w.FnPos(fn), "no allocation to the proposer")
+		return
+	}
+	v := seeThrough(argValue(final.Common(), 2))
+	phi, ok := v.(*ssa.Phi)
+	if !ok {
+		r.Bad(k, d, w.posOr(final.Pos(), fn), "the proposer's amount is not the loop-carried remainder: "+clip(Render(v).String(), 120))
+		return
+	}
+	okInit, okStep := false, false
+	for _, e := range phi.Edges {
+		t := Render(e)
+		if c, isCall := seeThrough(e).(*ssa.Call); isCall && nameMatch(CalleeName(&c.Call), "DecCoins.Sub") {
+			if seeThrough(c.Call.Args[0]) == ssa.Value(phi) {
+				// remaining.Sub(reward): reward must be the loop allocation's amount
+				for _, a := range allocs {
+					if a != final && sameCanon(canonValue(argValue(a.Common(), 2)), canonValue(c.Call.Args[1])) {
+						okStep = true
+					}
+				}
+			} else if t.Has("call:DistrKeeper.GetCommunityTax") {
+				okInit = true
+			}
+		}
+	}
+	if okInit && okStep {
+		r.OK(k, d, w.Pos(final.Pos()), "init = reward - tax; step subtracts the allocated value; proposer receives the phi")
+	} else {
+		r.Bad(k, d, w.posOr(final.Pos(), fn), fmt.Sprintf("telescoping broken: init-from-post-tax=%v step-subtracts-allocated=%v", okInit, okStep))
+	}
+}
+
+// BandtssRest (C14.R3): communityFund = transferred.Sub(rewardInt.MulInt(len(validMembers))) where `transferred` is the
+// value moved to distribution, `rewardInt` the value paid per member and the length is that of the ranged slice.
+func (r *Report) BandtssRest(key, fnKey string) {
+	w := r.W
+	fn := w.Fn(fnKey)
+	d := "communityFund = transferred - paidPerMember × len(paid members)"
+	k := key + "|" + fnKey
+	if fn == nil {
+		r.Unres(k, d, "function not found")
+		return
+	}
+	fund := Calls(fn, "DistrKeeper.FundCommunityPool")
+	move := Calls(fn, "BankKeeper.SendCoinsFromModuleToModule")
+	pay := Calls(fn, "BankKeeper.SendCoinsFromModuleToAccount")
+	if len(fund) != 1 || len(move) != 1 || len(pay) != 1 {
+		r.Unres(k, d, fmt.Sprintf("calls: fund=%d move=%d pay=%d", len(fund), len(move), len(pay)))
+		return
+	}
+	sub, ok := seeThrough(argValue(fund[0].Common(), 1)).(*ssa.Call)
+	if !ok || !nameMatch(CalleeName(&sub.Call), "Coins.Sub") {
+		r.Bad(k, d, w.posOr(fund[0].Pos(), fn), "funded amount is not a Coins.Sub")
+		return
+	}
+	if !sameCanon(canonValue(sub.Call.Args[0]), canonValue(argValue(move[0].Common(), 3))) {
+		r.Bad(k, d, w.posOr(fund[0].Pos(), fn), "minuend is not the transferred amount")
+		return
+	}
+	st := Render(sub.Call.Args[1])
+	paid := canonValue(argValue(pay[0].Common(), 3))
+	var mul *ssa.Call
+	for _, b := range fn.Blocks {
+		for _, in := range b.Instrs {
+			if c, ok := in.(*ssa.Call); ok && nameMatch(CalleeName(&c.Call), "Coins.MulInt") {
+				mul = c
+			}
+		}
+	}
+	if mul == nil || !sameCanon(canonValue(mul.Call.Args[0]), paid) {
+		r.Bad(k, d, w.posOr(fund[0].Pos(), fn), "subtrahend is not (the per-member payment).MulInt(...)")
+		return
+	}
+	// the multiplier is len(slice) of the slice the pay loop ranges over
+	recv := Render(argValue(pay[0].Common(), 2))
+	if !st.Has("len", "call:builtin.append") || !recv.Has("call:builtin.append") {
+		r.Bad(k, d, w.posOr(fund[0].Pos(), fn), "multiplier is not the length of the paid-members slice")
+		return
+	}
+	r.OK(k, d, w.Pos(fund[0].Pos()), "transferred − paid×len(validMembers)")
+}
